@@ -299,6 +299,17 @@ func TestC04(t *testing.T) {
 	r.Exhaustive("IPv4 addresses over the boundary-octet set ^4 in 4- and 16-byte form; every nibble position x 16 values x 3 backgrounds")
 	r.Sample(map[string]any{"addr": "2001:db8::ff00:42:8329", "canonical": ref.CanonArpa(netip.MustParseAddr("2001:db8::ff00:42:8329"))})
 
+	// ip6.arpa spellings of IPv4-mapped addresses and of their neighbours: whatever comes back must be the
+	// address whose canonical name was given
+	{
+		l := &local{r: r, key: "names_accepted", fam: "mapped_ip6_names"}
+		for _, a := range gen.MappedNeighbours() {
+			n := ref.CanonArpa(netip.AddrFrom16(a))
+			c04Name(r, l, n)
+			c04Name(r, l, gen.UpperASCII(n)+".")
+		}
+		l.flush()
+	}
 	// (b) accepted language: every name-shaped string of the shared families
 	fams := gen.NameFamilies(r.Thorough())
 	gen.Drive(fams, r.Seed, mon.Workers(), func(f *gen.Family) (func(string), func()) {
